@@ -1,10 +1,10 @@
 CONSTANTS
-  N = 4
-  NT = 3
+  N = 3
+  NT = 2
   MaxFaults = 1
-  MaxRogue = 0
+  MaxRogue = 1
   FixUnknown = TRUE
-  CtxWriteCloses = FALSE
+  CtxWriteCloses = TRUE
 SPECIFICATION Spec
 INVARIANTS TypeOK NoSelfClose ClosedOnlyAfterFault OwnReply TagsDistinct NeverNotag NeverCrashes OkHasReply
 
